@@ -109,6 +109,21 @@ class DiskTree:
         rel = self._fresh_rel(ext, stem)
         return ["add", rel, gen_lengths(self.rnd) if lengths is None else list(lengths)]
 
+    def add_twin(self):
+        """CASE TWIN: a new file whose path differs from an existing file's path only in the letter case of a folder name or of
+        the stem (src/Util.py next to src/util.py, App/main.py next to app/main.py): two files on a case-sensitive file system"""
+        import h4_round7 as r7
+        if not self.files:
+            return None
+        rel = r7.case_twin(self.rnd.choice(sorted(self.files)), self.rnd)
+        if rel is None or not self._free(rel):
+            return None
+        return ["add", rel, gen_lengths(self.rnd) or [self.rnd.choice([3, 20, 45, 70])], "case-twin"]
+
+    def _free(self, rel):
+        return not (rel in self.files or rel in self.others or any(f.startswith(rel + "/") for f in self.files) or any(rel.startswith(f + "/") for f in self.files)
+                    or any(rel.startswith(o + "/") for o in self.others))
+
     def add_empty(self):
         return self.add([], stem=self.rnd.choice(["__init__", "__init__", "empty", "stub"]))
 
@@ -137,6 +152,11 @@ class DiskTree:
             dst = self._fresh_rel(ext, stem)
         except RuntimeError:
             return None
+        if self.rnd.random() < 0.15:     # CASE TWIN as the destination (a pure change of letter case when it is a move)
+            import h4_round7 as r7
+            tw = r7.case_twin(src, self.rnd)
+            if tw is not None and self._free(tw):
+                dst = tw
         return ["move" if move else "copy", src, dst]
 
     def move(self):
@@ -210,7 +230,7 @@ class DiskTree:
             raise ValueError(kind)
         self.log.append(list(step))
 
-    EDITS = ["add", "add", "add_empty", "add_other", "remove", "remove", "remove", "remove_dir", "copy", "copy", "move", "move",
+    EDITS = ["add", "add", "add_twin", "add_twin", "add_empty", "add_other", "remove", "remove", "remove", "remove_dir", "copy", "copy", "move", "move",
              "modify", "touch", "exclude"]
 
     def edit(self, name=None):
@@ -227,6 +247,8 @@ def start_tree(root, rnd, exts=("py",)):
     t = DiskTree(root, rnd, exts)
     for _ in range(rnd.choice([1, 2, 3, 4, 5])):
         t.edit("add")
+    if rnd.random() < 0.3:
+        t.edit("add_twin")
     if rnd.random() < 0.6:
         t.edit("add_empty")
     if rnd.random() < 0.4:
@@ -250,7 +272,7 @@ def replay_tree(root, steps, observe):
 def do_round(tree, rnd, k=None):
     """1..3 edits; every third round is ONE edit of one kind (pure remove / pure copy / pure move / pure exclude ...)"""
     if k is not None and k % 3 == 0:
-        kinds = ["remove", "copy", "move", "exclude", "remove_dir", "add_empty", "touch", "add", "modify"]
+        kinds = ["remove", "copy", "move", "exclude", "remove_dir", "add_empty", "touch", "add", "modify", "add_twin"]
         return [tree.edit(kinds[(k // 3) % len(kinds)])]
     return [tree.edit() for _ in range(rnd.choice([1, 1, 2, 3]))]
 
